@@ -1,0 +1,24 @@
+//go:build verif
+
+package reviver
+
+import (
+	"context"
+
+	"github.com/jonboulle/clockwork"
+	"github.com/rs/zerolog"
+
+	"github.com/sergeii/swat4master/internal/core/usecases/reviveservers"
+)
+
+// VerifRevive runs one revival cycle exactly as the component's ticker loop does,
+// so that the verification harness exercises the component's own request construction.
+func VerifRevive(
+	ctx context.Context,
+	clock clockwork.Clock,
+	logger *zerolog.Logger,
+	uc reviveservers.UseCase,
+	cfg Config,
+) {
+	revive(ctx, clock, logger, uc, cfg)
+}
